@@ -13,6 +13,8 @@ is assumed, the detector records are part of the state), every container:
   C06_run_fdtd_eq_history       … = any history 0 = a_0 ≤ … ≤ a_n = T of partial runs on the reset container
   C06_reset_zero                NO finiteness hypothesis, any scalar type: after reset every field entry, every
                                 detector entry and (flag set) every recording entry is exactly 0
+  C06_reset_fieldstate          the field part of reset is one map over ALL FieldState components: E, H, psi_E, psi_H,
+                                dispersive_P_curr and dispersive_P_prev are each all zero afterwards (= zeroing the flat leaves)
   C06_reset_zero_ext            … instantiated at `Ext K` (a scalar type with a non-finite element)
   C06_reset_preserves           reset keeps materials, the recording state (default flags) and all shapes
   C06_reset_idem                reset ∘ reset = reset (same flags)
@@ -152,6 +154,23 @@ theorem C06_reset_zero (c : Container α) (rr : Bool) :
       simp only [Option.map_some, Option.some.injEq] at hl
       subst hl
       simp [zerosLike] at hx; exact hx.2.symm
+
+/-- **C06 (reset covers every FieldState component)**: the field part of `reset` is one map over all six components —
+E, H, the CPML auxiliaries psi_E / psi_H and the ADE polarisation at the current AND the previous step.  Each component is
+all zero afterwards, and zeroing the flattened leaves (what `Container.reset` does) is the same thing. -/
+theorem C06_reset_fieldstate (f : FieldState α) :
+    zerosLike f.leaves = f.zeroAll.leaves
+    ∧ (∀ x ∈ f.zeroAll.E, x = 0) ∧ (∀ x ∈ f.zeroAll.H, x = 0)
+    ∧ (∀ x ∈ f.zeroAll.psiE, x = 0) ∧ (∀ x ∈ f.zeroAll.psiH, x = 0)
+    ∧ (∀ x ∈ f.zeroAll.pCurr, x = 0) ∧ (∀ x ∈ f.zeroAll.pPrev, x = 0)
+    ∧ (∀ (c : Container α), c.fields = f.leaves → ∀ rd rr, (c.reset rd rr).fields = f.zeroAll.leaves) := by
+  have hz : ∀ (l : List α) x, x ∈ zerosLike l → x = 0 := by
+    intro l x hx; simp [zerosLike] at hx; exact hx.2.symm
+  have hl : zerosLike f.leaves = f.zeroAll.leaves := by
+    simp [FieldState.leaves, FieldState.zeroAll, zerosLike]
+  refine ⟨hl, hz _, hz _, hz _, hz _, hz _, hz _, ?_⟩
+  intro c hc rd rr
+  simp only [Container.reset, hc, hl]
 
 /-- **C06 (reset keeps materials)** — and, with the default flags, the recording state; all shapes are kept. -/
 theorem C06_reset_preserves (c : Container α) (rd rr : Bool) :
